@@ -138,7 +138,12 @@ func (h *Hub) UnregisterRemoteSKI(ski string) {
 
 	h.hubReader.ServicePairingDetailUpdate(ski, service.ConnectionStateDetail())
 
-	if existingC := h.connectionForSKI(ski); existingC != nil {
+	// a connection that is just being established is either registered by now or will not be registered any more
+	h.muxConReg.Lock()
+	existingC := h.connectionForSKI(ski)
+	h.muxConReg.Unlock()
+
+	if existingC != nil {
 		existingC.CloseConnection(true, 4500, "User close")
 	}
 }
